@@ -285,6 +285,10 @@ def _call(ctx, subject, fn, *args, **kwargs):
             raise
         if isinstance(exc, ValueError) and "didn't converge" in str(exc):
             raise _NoConvergence(str(exc)) from None
+        if isinstance(exc, ValueError) and "`ts` must be strictly increasing or decreasing" in str(exc) and core.short_tb(exc, 1)[0].startswith("common.py"):
+            # SciPy's LSODA wrapper produced repeated time points (first steps of 1e-22 on an interval of length 1e-7 with zero
+            # initial derivatives) and its own OdeSolution constructor rejects them: an integrator failure like "did not converge"
+            raise _NoConvergence("SciPy integrator returned repeated time points") from None
         ctx.fail("solves-admissible-problem", subject, f"raised:{type(exc).__name__}:{_quantise(exc)}", detail={"error": str(exc)[:300], "tb": core.short_tb(exc)})
         return _MISSING
 
@@ -449,6 +453,51 @@ def run_case(ctx, family, params):
         elif nod:
             ctx.count("no_derivatives=True")
             yt = yt[None, :]
+
+    # A violation of an accuracy clause must be reproducible with an independent integrator on the SAME library-built
+    # equation: SciPy's explicit/multistep methods occasionally accept a bad step (measured: DOP853 takes the whole transformed
+    # interval in ONE step when the map has a tiny slope - its initial-step heuristic is not invariant under rescaling of the
+    # independent variable - and its error estimate, far from the asymptotic regime, accepts an error of 4e-5 at tol 1e-10; RK45
+    # and Radau solve the same library-built equation correctly).  When the primary method misses the tolerance the same call is
+    # repeated with method="Radau" (largest ratio ever seen with Radau: 0.4); if that meets the tolerance the miss is counted as
+    # an integrator glitch (observation) and the clauses are decided on the Radau solve; if it does not (or raises), the failure
+    # stands.  A defect of the library shows with every integrator.
+    if kind == "ivp" and method != "Radau":
+        def misses(y, sc):
+            return any(not (float(np.max(np.abs(y[k] - exact[k]))) <= ACC_FACTOR[kind] * tol * sc[k]) for k in range(y.shape[0]))
+
+        def confirm(with_tf):
+            try:
+                with _cpu_limit():
+                    kw2 = dict(kw, method="Radau")
+                    if with_tf:
+                        alt = gode.solve_ode_ivp(span, pr.fx_callback(), pr.coeff_arg(mode), y0_arg, tf, no_derivatives=nod, **kw2)
+                    else:
+                        alt = gode.solve_ode_ivp(span, pr.fx_callback(), pr.coeff_arg(mode), y0_arg, **kw2)
+                    ya = np.asarray(alt(xs.copy()))
+            except (Exception, _CpuLimit):
+                return None
+            if with_tf and nod and ya.shape == (NPTS,):
+                ya = ya[None, :]
+            if ya.shape != ((1 if (with_tf and nod) else order), NPTS) or misses(ya, scale_t if with_tf else scale_d):
+                return None
+            return alt, ya
+
+        for with_tf in (False, True):
+            ycur = yt if with_tf else yd
+            if ycur is _MISSING or not misses(ycur, scale_t if with_tf else scale_d):
+                continue
+            ctx.hit("confirmation-solve:Radau")
+            got = confirm(with_tf)
+            if got is None:
+                continue  # confirmed (or not refutable): the failure is recorded below
+            worst = max(float(np.max(np.abs(ycur[k] - exact[k]))) / (tol * (scale_t if with_tf else scale_d)[k]) for k in range(ycur.shape[0]))
+            ctx.count(f"integrator-glitch-not-a-library-failure:{method}")
+            ctx.observe(f"SciPy {method} missed the tolerance on a library-built equation that Radau solves within tolerance", ratio=worst, transformed=with_tf, **info)
+            if with_tf:
+                sol_t, yt = got
+            else:
+                sol_d, yd = got
 
     # accuracy against the exact solution, per derivative order; prescribed conditions (values w.r.t. the ORIGINAL
     # variable: the exact derivatives at the end points)
